@@ -197,7 +197,13 @@ func CheckRequestPlacement(d *spec.Design, s *spec.Service, m *spec.Method, payl
 		got, present := req.Header[http.CanonicalHeaderKey(name)]
 		switch {
 		case v == nil || isEmptyArr(v):
-			if present {
+			sibling := false // another credential attribute reads the same header and is set: the header is its
+			for _, a := range sharedCarriers(d, m)[name] {
+				if a != attr && obj[a] != nil {
+					sibling = true
+				}
+			}
+			if present && !sibling {
 				errs = append(errs, fmt.Sprintf("header %s sent (%q) for unset attribute %s", name, got, attr))
 			}
 		case !present:
